@@ -302,6 +302,8 @@ type desc struct {
 	// list-level cases (CSig / CList): entry name and inputs
 	Name   *string `json:"entry_name,omitempty"`
 	Inputs []pj    `json:"inputs,omitempty"`
+	// rune cases (runes.go): the text as hex
+	Runes *string `json:"rune_text_hex,omitempty"`
 }
 
 type gen struct {
@@ -1064,7 +1066,17 @@ func main() {
 		}
 		json.Unmarshal(raw, &rp)
 		g.w = cv.NewWriter(*out, "C13", header, "case", "mismatches", 1)
-		if rp.Case.Session != nil {
+		if rp.Case.Runes != nil {
+			raw, _ := hex.DecodeString(*rp.Case.Runes)
+			rw := newRuneWriter(*out, 1)
+			addRuneCase(rw, st, "replay", string(raw))
+			pairs, et := rangeRunes(string(raw))
+			fmt.Printf("Go runtime: runes (value, width) = %v, base name = %q\n", pairs, et)
+			rw.Flush()
+			st.Evaluations = rw.Count()
+			st.Write(filepath.Join(*out, "stats_C13.json"))
+			return
+		} else if rp.Case.Session != nil {
 			g.replaySession(rp.Case.Session)
 		} else if rp.Case.Param != nil {
 			p := fromJSON(*rp.Case.Param)
@@ -1199,6 +1211,14 @@ func main() {
 	}
 	g.editSessions(nSess)
 
+	// UTF-8 boundary texts: the range-over-string decoding of the Go runtime against AbiType/ModelRune.v
+	// (cases_C13R_*.v, evaluator AbiType/RunRune.v), and the same texts as type texts (runes.go)
+	rw := newRuneWriter(*out, 2)
+	g.runeCases(rw, thorough)
+	if err := rw.Flush(); err != nil {
+		panic(err)
+	}
+
 	for _, rt := range g.retained {
 		g.recheck(rt)
 	}
@@ -1211,7 +1231,7 @@ func main() {
 	if err := g.w.Flush(); err != nil {
 		panic(err)
 	}
-	st.Evaluations = g.w.Count()
+	st.Evaluations = g.w.Count() + rw.Count()
 	if err := writeStats(st, filepath.Join(*out, "stats_C13.json"), brokenNil); err != nil {
 		panic(err)
 	}
